@@ -8,9 +8,11 @@ set -u
 export GOFLAGS=-mod=mod GOPROXY=off GOSUMDB=off GOTOOLCHAIN=local
 D="$(cd "$(dirname "${BASH_SOURCE[0]}")" && pwd)"
 pid="$1"; n="$2"; shift 2; extra="$@"
-src="/tmp/seed-$pid/seeded/$n"
-[ -f "$src/patch.diff" ] || { echo "$pid-$n: no patch"; exit 2; }
 out="/verif/seeded/$pid-$n"; mkdir -p "$out"
+src="/tmp/seed-$pid/seeded/$n"
+# once a change has been kept, it is re-checked from its own directory
+[ -f "$src/patch.diff" ] || src="$out"
+[ -f "$src/patch.diff" ] || { echo "$pid-$n: no patch"; exit 2; }
 wt="$(mktemp -d /tmp/sc-XXXXXX)"; rmdir "$wt"
 git -C /repo worktree add -q --detach "$wt" HEAD || exit 2
 cleanup() { git -C /repo worktree remove --force "$wt" 2>/dev/null; rm -rf "$wt" "$D/bin/alt-$(echo "$wt" | tr '/' '_')" "$D/work/alt-$(basename "$wt")"; }
@@ -29,7 +31,7 @@ echo "$demo_without" | grep -q '^ok' || res "demo fails WITHOUT the patch: $demo
 rm -f "$wt/zz_seeded_demo_test.go"
 git -C "$wt" apply "$src/patch.diff"
 rm -f "$out/REJECTED"
-cp "$src/patch.diff" "$src/demo_test.go" "$out/"
+[ "$src" = "$out" ] || cp "$src/patch.diff" "$src/demo_test.go" "$out/"
 ids="C01 C02 C03 C04 C05 C06 C07 C08 C09 C12 C13 C14 C15 C16 C17 C18 C19 C20"
 case "$pid" in C10|C11) ids="$ids C10 C11";; esac
 for e in $extra; do case " $ids " in *" $e "*) ;; *) ids="$ids $e";; esac; done
@@ -43,7 +45,8 @@ for id in $ids; do
   echo "$id exit=$code violations=$nv $keys" >> "$out/detection.txt"
   [ "$nv" -gt 0 ] && caught="$caught $id"
 done
-python3 - "$src/meta.json" "$out/meta.json" "$pid" "$n" "$caught" "$suite" "$demo_with" "$demo_without" <<'PY'
+[ -f "$src/meta.json" ] && cp "$src/meta.json" "$out/meta.agent.json" 2>/dev/null
+python3 - "$out/meta.agent.json" "$out/meta.json" "$pid" "$n" "$caught" "$suite" "$demo_with" "$demo_without" <<'PY'
 import json,sys
 src,dst,pid,n,caught,suite,dw,dwo=sys.argv[1:9]
 try: m=json.load(open(src))
